@@ -202,16 +202,24 @@ def h_peewee(x, op):
             ds.update_bucket("A", name="other")
         elif op == "delete_bucket":
             ds.delete_bucket("A")
+        elif op == "write_after_rejected_bulk_insert":
+            bad = C.mk_event(x, new[1].start, new[1].dur, {"tag": x.wrap(new[1].tag), "bad": {1, 2}}, aligned=False)
+            try:
+                b.insert([ST.event_of_row(x, new[0]), bad])
+            except Exception:  # noqa — the caller catches the rejection and carries on
+                pass
+            b.insert(ST.event_of_row(x, new[0]))
+            b.replace(x.wrap(A[0].id), ST.event_of_row(x, new[1]))
         if x.sym:
             obl = [("every-completed-operation-durable", conn.uncommitted_writes == 0 and same_tables(conn.tables, conn.crash_image())),
-                   ("no-transaction-opened", all(kind not in ("begin", "rollback") for _, kind in conn.log[mark:]) and conn.isolation_level is None)]
+                   ("no-transaction-left-open", not conn.explicit_txn and not conn.in_transaction and conn.isolation_level is None)]
         else:
             import sqlite3
 
             c2 = sqlite3.connect(ds.storage_strategy.db.database)
             same = all(list(conn.execute('SELECT * FROM "%s" ORDER BY 1' % t)) == list(c2.execute('SELECT * FROM "%s" ORDER BY 1' % t)) for t in ("eventmodel", "bucketmodel"))
             c2.close()
-            obl = [("every-completed-operation-durable", same), ("no-transaction-opened", conn.isolation_level is None and not conn.in_transaction)]
+            obl = [("every-completed-operation-durable", same), ("no-transaction-left-open", conn.isolation_level is None and not conn.in_transaction)]
         return obl, [op]
     finally:
         be.close()
@@ -251,7 +259,7 @@ def harnesses(tier, prop=PROP, fn=None):
         hs.append((Harness(prop, "sqlite-lazy-%s" % op, fn, dict(op=op, lazy=True), "sqlite (lazy commit): %s from an arbitrary commit-machinery state (counter, buffered writes, age of last flush symbolic)" % op, split_depth=6), 1800))
     if prop == "C06":
         ST.install_peewee()
-        for op in ["insert_one", "insert_many_new", "insert_many_upsert", "replace", "replace_last", "delete_live", "create_bucket", "update_bucket", "delete_bucket"]:
+        for op in ["insert_one", "insert_many_new", "insert_many_upsert", "replace", "replace_last", "delete_live", "create_bucket", "update_bucket", "delete_bucket", "write_after_rejected_bulk_insert"]:
             hs.append((Harness(prop, "peewee-%s" % op, h_peewee, dict(op=op), "peewee (auto-commit): %s — durable on return, no transaction opened" % op, split_depth=6), 900))
         for op in EVENT_WRITES:
             hs.append((Harness(prop, "sqlite-eager-%s" % op, fn, dict(op=op, lazy=False), "sqlite (enable_lazy_commit=False): %s" % op, split_depth=6), 1800))
